@@ -133,7 +133,87 @@ theorem C06_survivor_still_running (p : Pool) (t : Nat) (tk k : PTask) (hk : p.t
   refine ⟨rfl, rfl, rfl, { k with sawCancel := true, phase := .inWorker, fut := .pending }, ?_, rfl, rfl, hm, rfl, rfl⟩
   exact getElem?_modify_eq _ _ _ _ h1
 
+/-- **a worker that has gone on to a later suspension point is, for the pool, the running task it was**: the step that
+resumes a worker whose awaited future completed normally and that has further `await`s ahead (`awaitsLeft > 0`; log
+entry `N`) moves nothing between the registries, leaves the semaphore, every spawner, every group, the lock, the
+`closed` flag and every other task untouched, writes exactly the log entry `N t`, and leaves the task in its worker —
+awaiting a fresh *pending* future with no cancellation pending (or, had a `must_cancel` been pending on the record, with
+that future cancelled at once and a wake-up queued: the cancellation is delivered at the new suspension point). Its
+asyncio Task is as undone as before. So the next `cancel(id)` / `stop` / `cancel_group` finds it running, accepts its
+id (`C06_all_or_nothing`) and delivers the `CancelledError` at this later suspension point (`C06_delivery`:
+`wakesOnCancel` holds for it, see `C06_later_await_cancellable`). `tk` is the record the step read, `k` the record as
+filed while the step runs (as in `C06_survivor_still_running`). -/
+theorem C06_later_await_is_running (p : Pool) (t : Nat) (tk k : PTask) (hk : p.tasks[t]? = some k)
+    (hc : (tk.fut == .cancelled || tk.mustCancel) = false) (hf : tk.fut = .ok) (ha : tk.awaitsLeft > 0) :
+    (p.stepInWorker t tk).running = p.running ∧ (p.stepInWorker t tk).cancelledR = p.cancelledR ∧
+    (p.stepInWorker t tk).ended = p.ended ∧ (p.stepInWorker t tk).counters = p.counters ∧
+    (p.stepInWorker t tk).sem = p.sem ∧ (p.stepInWorker t tk).reqs = p.reqs ∧ (p.stepInWorker t tk).groups = p.groups ∧
+    (p.stepInWorker t tk).locked = p.locked ∧ (p.stepInWorker t tk).closed = p.closed ∧
+    (p.stepInWorker t tk).lost = p.lost ∧ (p.stepInWorker t tk).log = p.log ++ [.next t] ∧
+    (∀ i, i ≠ t → (p.stepInWorker t tk).tasks[i]? = p.tasks[i]?) ∧
+    ∃ k', (p.stepInWorker t tk).tasks[t]? = some k' ∧ k'.phase = .inWorker ∧ k'.mustCancel = false ∧
+      k'.outcome = k.outcome ∧ k'.released = k.released ∧ k'.awaitsLeft = k.awaitsLeft - 1 ∧
+      (if k.mustCancel then k'.fut = .cancelled ∧ k'.sched = true ∧ (p.stepInWorker t tk).emit = p.emit ++ [.task t]
+       else k'.fut = .pending ∧ k'.sched = k.sched ∧ (p.stepInWorker t tk).emit = p.emit) := by
+  have hstep : p.stepInWorker t tk = p.workerNext t := by
+    unfold stepInWorker
+    rw [if_neg (by rw [hc]; exact Bool.false_ne_true)]
+    simp only [hf, ha, if_true]
+  rw [hstep]
+  unfold workerNext
+  have h1 : ((p.logEv (.next t)).modTask t fun k => { k with awaitsLeft := k.awaitsLeft - 1 }).tasks[t]? =
+      some { k with awaitsLeft := k.awaitsLeft - 1 } := by
+    simp [modTask, logEv, List.getElem?_modify, hk]
+  unfold suspendTask
+  simp only [h1]
+  cases hm : k.mustCancel with
+  | false =>
+    simp only [Bool.false_eq_true, if_false]
+    refine ⟨rfl, rfl, rfl, rfl, rfl, rfl, rfl, rfl, rfl, rfl, rfl, ?_,
+      { k with awaitsLeft := k.awaitsLeft - 1, phase := .inWorker, fut := .pending }, ?_, rfl, hm, rfl, rfl, rfl, rfl, rfl, rfl⟩
+    · intro i hi; simp [modTask, logEv, List.getElem?_modify, Ne.symm hi]
+    · exact getElem?_modify_eq _ _ _ _ h1
+  | true =>
+    simp only [if_true]
+    refine ⟨rfl, rfl, rfl, rfl, rfl, rfl, rfl, rfl, rfl, rfl, rfl, ?_,
+      { k with awaitsLeft := k.awaitsLeft - 1, phase := .inWorker, fut := .cancelled, mustCancel := false, sched := true },
+      ?_, rfl, rfl, rfl, rfl, rfl, rfl, rfl, rfl⟩
+    · intro i hi; simp [schedTask, emitRef, modTask, logEv, List.getElem?_modify, Ne.symm hi]
+    · simp [schedTask, emitRef, modTask, logEv, List.getElem?_modify, hk]
+
+/-- the same at the level of the handle: running the wake-up handle of a task whose worker awaited a future that
+completed normally, with further `await`s ahead and no cancellation pending, leaves the registries alone and the task
+suspended on a pending future — so `Task.cancel()` on it cancels that future and queues a wake-up (`wakesOnCancel`, the
+premise of the second branch of `C06_delivery`) -/
+theorem C06_later_await_cancellable (p : Pool) (t : Nat) (tk : PTask) (hk : p.tasks[t]? = some tk)
+    (hs : tk.sched = true) (hph : tk.phase = .inWorker) (hf : tk.fut = .ok) (hm : tk.mustCancel = false)
+    (ha : tk.awaitsLeft > 0) (ho : tk.outcome = none) :
+    (p.stepTask t).running = p.running ∧ (p.stepTask t).cancelledR = p.cancelledR ∧ (p.stepTask t).ended = p.ended ∧
+    (p.stepTask t).sem = p.sem ∧ (p.stepTask t).wakesOnCancel t = true ∧ (p.stepTask t).log = p.log ++ [.next t] := by
+  unfold stepTask
+  simp only [hk, hs, Bool.not_true, Bool.false_eq_true, if_false, hph]
+  have h0 : (p.modTask t fun k => { k with sched := false }).tasks[t]? = some { tk with sched := false } := by
+    simp [modTask, List.getElem?_modify, hk]
+  obtain ⟨a1, a2, a3, _, a5, _, _, _, _, _, a11, _, k', b1, b2, _, b4, _, _, b7⟩ :=
+    C06_later_await_is_running (p.modTask t fun k => { k with sched := false }) t tk _ h0 (by simp [hf, hm]) hf ha
+  simp only [hm, Bool.false_eq_true, if_false] at b7
+  refine ⟨a1, a2, a3, a5, ?_, a11⟩
+  unfold wakesOnCancel
+  rw [b1]
+  have : k'.outcome = none := by rw [b4]; exact ho
+  simp [this, b2, b7.1]
+
 /-! Non-vacuity -/
+/-- a worker with two further suspension points: released once (`N`), cancelled at its second suspension point -/
+def C06_demo_later : History :=
+  [.mkpool (some 2) none none,
+   .on 0 [] (.apply 1 none { Pool.gatedSpec with ws := { mode := .gated, swallow := false, awaits := 2 } }),
+   .run 0 [], .run 0 [], .on 0 [] (.gate 0 .ok), .run 0 [], .on 0 [] (.cancel [0]), .run 0 []]
+
+example : (((World.init 0).run C06_demo_later).pools.map fun p =>
+      (p.log.map Ev.show, p.running ++ p.cancelledR, p.ended, p.tasks.map fun k => k.awaitsLeft)) =
+    [(["S0(a)", "N0", "X0"], ([] : List Nat), [0], [1])] := by decide +kernel
+
 def C06_demo : History :=
   [.mkpool (some 2) none none, .on 0 [] (.apply 2 none Pool.gatedSpec), .run 0 [], .run 0 [], .run 0 []]
 
